@@ -26,6 +26,10 @@ class Budget(Unknown):
     """the abstract run did not end within its statement budget"""
 
 
+class _Gen(list):
+    """the elements of a generator expression (evaluated eagerly)"""
+
+
 class Raised(Exception):
     """the folded code raises (for example a failed dict lookup)"""
     def __init__(self, what):
@@ -251,6 +255,9 @@ class Evaluator:
         if node is None:
             raise Unknown(f"{ci.qualname}.{name}")
         if isinstance(node, FUNC + (ast.Lambda,)):
+            if any(unparse(d) == "classmethod" for d in getattr(
+                    node, "decorator_list", [])):
+                return ("method", ClassRef(ci), node, owner)
             return ("function", owner, node)
         if isinstance(node, ast.ClassDef):
             return ClassRef(owner.inner[name])
@@ -332,6 +339,8 @@ class Evaluator:
             return ("type", _TYPES[name])
         if name == "isinstance":
             return ("isinstance",)
+        if name in ("next", "iter"):
+            return ("iterfn", name)
         if name in ("setattr", "getattr", "hasattr"):
             return ("attrfn", name)
         if name in ("True", "False", "None"):
@@ -344,7 +353,11 @@ class Evaluator:
             return ("typefn",)
         if name in ("TypeError", "ValueError", "KeyError", "IndexError",
                     "Exception", "AssertionError", "NotImplementedError",
-                    "OverflowError", "AttributeError"):
+                    "OverflowError", "AttributeError", "OSError",
+                    "RuntimeError", "StopIteration", "LookupError",
+                    "ArithmeticError", "ZeroDivisionError",
+                    "FileNotFoundError", "FileExistsError",
+                    "PermissionError", "TimeoutError"):
             return ("exc", name)
         raise Unknown(f"name {name}")
 
@@ -395,6 +408,9 @@ class Evaluator:
                     if "staticmethod" in decos:
                         return ("function", v[1], fn)
                     return ("method", base, fn, v[1]) + tuple(v[3:4])
+                if isinstance(v, tuple) and v and v[0] == "method" and \
+                        isinstance(v[1], ClassRef):
+                    return v        # a classmethod, bound to the class
                 return v
             h = base.fields.get("__getattr__")
             if isinstance(h, tuple) and h and h[0] == "hook" and \
@@ -785,7 +801,7 @@ class Evaluator:
         return list(self._comp(node, env))
 
     def _e_GeneratorExp(self, node, env):
-        return list(self._comp(node, env))
+        return _Gen(self._comp(node, env))
 
     def _e_SetComp(self, node, env):
         return set(self._comp(node, env))
@@ -894,7 +910,14 @@ class Evaluator:
         if isinstance(f, tuple) and f:
             if f[0] == "hook":
                 # a rule's recording stub: receives abstract values as is
-                return f[1](*args, **kwargs)
+                try:
+                    return f[1](*args, **kwargs)
+                except TypeError as e:
+                    if "argument" in str(e) and f[1].__name__ in str(e):
+                        # the source calls the stand-in in a way the rule
+                        # did not foresee
+                        raise Unknown(f"stand-in called differently: {e}")
+                    raise
             if f[0] == "opfunc" and len(args) == 2 and not kwargs:
                 if issubclass(f[1], ast.cmpop):
                     return self.compare(f[1], args[0], args[1])
@@ -952,6 +975,33 @@ class Evaluator:
                     raise Raised(f"{type(e).__name__}: {e}")
             if f[0] == "isinstance":
                 return self._isinstance(args[0], args[1])
+            if f[0] == "iterfn":
+                if not args or isinstance(args[0], (Obj, Opaque, ClassRef,
+                                                    EnumVal)):
+                    raise Unknown(f"{f[1]}() of an abstract value")
+                if f[1] == "iter" and len(args) == 1:
+                    try:
+                        return iter(args[0])
+                    except TypeError as e:
+                        raise Raised(f"TypeError: {e}")
+                if f[1] == "next" and len(args) in (1, 2):
+                    it = args[0]
+                    if isinstance(it, _Gen):
+                        # a generator expression, evaluated eagerly:
+                        # next() takes its first element off
+                        if it:
+                            return it.pop(0)
+                    elif hasattr(it, "__next__"):
+                        try:
+                            return next(it)
+                        except StopIteration:
+                            pass
+                    else:
+                        raise Raised("TypeError: not an iterator")
+                    if len(args) == 2:
+                        return args[1]
+                    raise Raised("StopIteration")
+                raise Unknown(f"{f[1]} arity")
             if f[0] == "attrfn":
                 if len(args) >= 2 and isinstance(args[1], str) and (
                         args[0] is None or type(args[0]) in (
